@@ -28,7 +28,7 @@ if os.path.exists(p):
         j = json.loads(l); seen[j['name']] = j
     for n, j in seen.items():
         hm.append('| %s | %s | %s |' % (n, j['file'], ', '.join('%s:%s' % (c, v) for c, v in j['results'].items())))
-sec = '\n### 8.5 Sensitivity: which checks catch which changes\n\nIndependently written regressions (fresh sub-agents given only the property text and a scratch worktree; each confirmed by the lead with `tools/seedcheck.py`: applies, builds, unedited suite of the touched packages passes, demonstration fails with the change and passes without it). %d seeds, %d caught by the quick tier of at least one check; the others are the seeds judged outside the property's domain (8.3).\n\n' % (len(rows), ncaught) + '\n'.join(tab) + '\n\nHand-made mutants of the lead\'s own checks (`tools/mutants.py`, quick tier; per-package mutants of the other checks are listed with one-line diffs in `notes/<pkg>.md`):\n\n| mutant | file | result |\n|---|---|---|\n' + '\n'.join(hm) + '\n'
+sec = '\n### 8.5 Sensitivity: which checks catch which changes\n\nIndependently written regressions (fresh sub-agents given only the property text and a scratch worktree; each confirmed by the lead with `tools/seedcheck.py`: applies, builds, unedited suite of the touched packages passes, demonstration fails with the change and passes without it). %d seeds, %d caught by the quick tier of at least one check; the others are the seeds judged outside the domain of their property (8.3).\n\n' % (len(rows), ncaught) + '\n'.join(tab) + '\n\nHand-made mutants of the lead\'s own checks (`tools/mutants.py`, quick tier; per-package mutants of the other checks are listed with one-line diffs in `notes/<pkg>.md`):\n\n| mutant | file | result |\n|---|---|---|\n' + '\n'.join(hm) + '\n'
 s = open('/verif/DESIGN.md').read()
 i = s.find('\n### 8.5 Sensitivity')
 if i >= 0:
